@@ -50,9 +50,10 @@ class _Helper:
         self.static = decos == ["staticmethod"]
         self.ok = not decos or self.static
         a = node.args
-        if a.kwarg or a.posonlyargs or (a.vararg and a.kwonlyargs):
+        if a.posonlyargs or (a.vararg and a.kwonlyargs):
             self.ok = False
         self.vararg = a.vararg.arg if a.vararg else None
+        self.kwarg = a.kwarg.arg if a.kwarg else None
         self.params = [x.arg for x in a.args + a.kwonlyargs]
         self.defaults = {}
         pos = a.args
@@ -97,6 +98,12 @@ class _Helper:
             elif isinstance(n, ast.ExceptHandler) and n.name:
                 self.locals.add(n.name)
         self.assigned_params = {p for p in self.params if p in self.locals}
+        if self.kwarg is not None:
+            # **kw is accepted when the body only ever forwards it (`g(..., **kw)`): the caller's extra keywords are written out there
+            fwd = {id(k.value) for n in inner if isinstance(n, ast.Call) for k in n.keywords
+                   if k.arg is None and isinstance(k.value, ast.Name) and k.value.id == self.kwarg}
+            if self.kwarg in self.locals or any(isinstance(n, ast.Name) and n.id == self.kwarg and id(n) not in fwd for n in inner):
+                self.ok = False
 
 
 class _Instantiate(ast.NodeTransformer):
@@ -112,6 +119,14 @@ class _Instantiate(ast.NodeTransformer):
             else:
                 new_args.append(a)
         n.args = new_args
+        new_kw = []
+        for k in n.keywords:
+            if k.arg is None and isinstance(k.value, ast.Name) and isinstance(self.mapping.get(k.value.id), ast.Dict):
+                d = self.mapping[k.value.id]
+                new_kw.extend(ast.keyword(arg=kk.value, value=copy.deepcopy(vv)) for kk, vv in zip(d.keys, d.values))
+            else:
+                new_kw.append(k)
+        n.keywords = new_kw
         self.generic_visit(n)
         return n
 
@@ -216,10 +231,16 @@ class Unextractor:
             if not all(_is_simple(x) for x in extra):
                 return None
             out[h.vararg] = ast.Tuple(elts=extra, ctx=ast.Load())
+        extra_kw = []
         for k in call.keywords:
+            if k.arg not in h.params and getattr(h, "kwarg", None) is not None and k.arg not in out and _is_simple(k.value):
+                extra_kw.append(k)
+                continue
             if k.arg not in h.params or k.arg in out:
                 return None
             out[k.arg] = k.value
+        if getattr(h, "kwarg", None) is not None:
+            out[h.kwarg] = ast.Dict(keys=[ast.Constant(value=k.arg) for k in extra_kw], values=[k.value for k in extra_kw])
         for p in h.params:
             if p not in out:
                 if p not in h.defaults:
@@ -294,7 +315,7 @@ class Unextractor:
         tag = "__%s%d" % (h.name.strip("_"), self.counter)
         pre, mapping, rename = [], {}, {}
         for p, a in b.items():
-            if _is_simple(a) and p not in h.assigned_params:
+            if (_is_simple(a) and p not in h.assigned_params) or p == getattr(h, "kwarg", None):
                 mapping[p] = a
             else:
                 rename[p] = p + tag
